@@ -187,3 +187,92 @@ func Collect(s func(func(Pair) bool)) []Pair {
 	s(func(p Pair) bool { out = append(out, p); return true })
 	return out
 }
+
+// ---- generic value types (C18) ----
+
+// ValSpec maps value indexes to freshly heap-allocated values of type V and back.
+type ValSpec[V any] struct {
+	Name string
+	Make func(i int) V // a fresh value referenced by nobody else
+	Read func(V) int   // deep decode; -1 when the value is not intact
+}
+
+type drvV[K any, V any] struct {
+	t     art.Tree[K, V]
+	spec  *KeySpec[K]
+	index map[string]int
+	vs    *ValSpec[V]
+}
+
+// NewDriverV wraps a tree with an arbitrary value type behind the int-valued Driver interface.
+func NewDriverV[K any, V any](t art.Tree[K, V], spec *KeySpec[K], index map[string]int, vs *ValSpec[V]) Driver {
+	return &drvV[K, V]{t: t, spec: spec, index: index, vs: vs}
+}
+
+func (d *drvV[K, V]) key(i int) K {
+	k := d.spec.Keys[i]
+	if d.spec.Fresh != nil {
+		return d.spec.Fresh(k)
+	}
+	return k
+}
+func (d *drvV[K, V]) pair(k K, v V) Pair {
+	id := d.spec.Ident(k)
+	if i, ok := d.index[id]; ok {
+		return Pair{K: i, V: d.vs.Read(v)}
+	}
+	return Pair{K: -1, V: d.vs.Read(v), Str: d.spec.Str(k)}
+}
+func (d *drvV[K, V]) Insert(k, v int)   { d.t.Insert(d.key(k), d.vs.Make(v)) }
+func (d *drvV[K, V]) Delete(k int) bool { return d.t.Delete(d.key(k)) }
+func (d *drvV[K, V]) Search(k int) (int, bool) {
+	v, ok := d.t.Search(d.key(k))
+	if !ok {
+		return 0, false
+	}
+	return d.vs.Read(v), true
+}
+func (d *drvV[K, V]) Size() int { return d.t.Size() }
+func (d *drvV[K, V]) Tree() any { return d.t }
+func (d *drvV[K, V]) Min() (Pair, bool) {
+	k, v, ok := d.t.Minimum()
+	if !ok {
+		return Pair{}, false
+	}
+	return d.pair(k, v), true
+}
+func (d *drvV[K, V]) Max() (Pair, bool) {
+	k, v, ok := d.t.Maximum()
+	if !ok {
+		return Pair{}, false
+	}
+	return d.pair(k, v), true
+}
+func (d *drvV[K, V]) Seq(q Query) func(yield func(Pair) bool) {
+	var s func(func(K, V) bool)
+	switch q.Kind {
+	case SeqAll:
+		s = d.t.All()
+	case SeqBackward:
+		s = d.t.Backward()
+	case SeqPrefix:
+		s = d.t.Prefix(d.key(q.A))
+	case SeqRange:
+		s = d.t.Range(d.key(q.A), d.key(q.B))
+	case SeqTopK:
+		s = d.t.TopK(q.N)
+	case SeqBottomK:
+		s = d.t.BottomK(q.N)
+	}
+	return func(yield func(Pair) bool) {
+		s(func(k K, v V) bool { return yield(d.pair(k, v)) })
+	}
+}
+func (d *drvV[K, V]) Dump() *art.VerifNode {
+	n, ok := art.VerifDump(d.t)
+	if !ok {
+		panic("VerifDump: not a go-art tree")
+	}
+	return n
+}
+func (d *drvV[K, V]) Poison(fill func(int) byte) { art.VerifPoisonStale(d.t, fill) }
